@@ -199,6 +199,16 @@ class VMap(V):
         return 'VMap(%s)' % self.t
 
 
+class VCDict(V):
+    """dict literal with concrete string keys and arbitrary values (classes, functions)"""
+
+    def __init__(self, pairs):
+        self.pairs = list(pairs)   # [(python str, V)]
+
+    def __repr__(self):
+        return 'VCDict(%r)' % ([k for k, _ in self.pairs],)
+
+
 class VSet(V):
     def __init__(self, t, kty):
         self.t = t          # Array(K, Bool)
@@ -713,3 +723,15 @@ class FileObjT(Ty):
 
     def __repr__(self):
         return 'FileObjT'
+
+
+class NewObj(Obj):
+    """a reference to an object allocated by the callee (fresh address, exact class)"""
+
+    def fresh(self, ctx, name):
+        v = ctx.new_object(self.classes[0])
+        ctx.heap['__class__'] = z3.Store(ctx.field_array('__class__'), v.t, ctx.engine.class_id(self.classes[0]))
+        return v
+
+    def __repr__(self):
+        return 'NewObj%r' % (self.classes,)
